@@ -116,6 +116,18 @@ func RunInBubble(t *testing.T, name string, f func(t *testing.T) *Result) (res *
 			}
 		}()
 		t.Run(name, func(t *testing.T) {
+			// synctest.Test panics on this goroutine when the bubble's main function has returned
+			// while background goroutines of the code under test are still parked (binlog streamer,
+			// branch activity tracker): expected for the SQL engine, recovered here
+			defer func() {
+				if r := recover(); r != nil {
+					msg := fmt.Sprint(r)
+					if res != nil && strings.Contains(msg, "deadlock: main bubble goroutine has exited") {
+						return
+					}
+					res = &Result{Panic: msg + "\n" + string(debug.Stack())}
+				}
+			}()
 			synctest.Test(t, func(t *testing.T) {
 				defer func() {
 					if r := recover(); r != nil {
